@@ -2,18 +2,11 @@
 from harness import core
 from props import merge_common as mc
 
+# quick tier: the fixed parameter slices q12_* of OpsMerge.tla (SliceOf), two TLC processes
 QUICK = [
-    ("switch_latest cold/sync", dict(Ops={"switch_latest"}, Tabs={"plain", "short", "error"}, Flavours={"cold", "sync"}, OTermTimes={2, 3, 5})),
-    ("mapped operators + raising mappers", dict(Ops={"switch_map", "switch_map_indexed", "flat_map_latest"}, Tabs={"error"},
-                                                Flavours={"cold"}, Faults=True, MaxOuter=2, OTermTimes={2, 3, 5})),
-    ("hot inners; never-ending inners", dict(Ops={"switch_latest"}, Tabs={"pair", "never"}, Flavours={"hot"}, OTermTimes={2, 5})),
-    ("dispose instants; outer events at the subscription instant",
-     dict(Ops={"switch_latest", "switch_map"}, Tabs={"plain"}, Flavours={"sync", "cold"}, MaxOuter=2, OTimes={0, 1, 2},
-          OTermTimes={0, 2, 5}, DspTicks={0, 1, 2, 3})),
-    ("exclusive (growth)", dict(Ops={"exclusive"}, Tabs={"plain", "error"}, Flavours={"cold", "sync"}, OTermTimes={2, 3, 5})),
-    ("cut by take(k) in the middle of a notification",
-     dict(Ops={"switch_latest", "exclusive"}, Tabs={"short"}, Flavours={"sync"}, RG=False, OTimes={0, 1}, OTermTimes={2},
-          OTerms={"C", "U"}, Takes={1, 2})),
+    ("slices q12_switch", dict(Slices={"q12_switch"})),
+    ("slices q12_short q12_mapped q12_hot q12_dispose q12_excl q12_take",
+     dict(Slices={"q12_short", "q12_mapped", "q12_hot", "q12_dispose", "q12_excl", "q12_take"})),
 ]
 
 THOROUGH = [
@@ -58,7 +51,7 @@ def run(tier):
         ck.note("simulated_scenarios", len(sim))
         ck.note("simulated_scenarios_tie_free_compared", len(det))
         groups += core.group_allowed(det)
-    mc.replay_groups(ck, groups, ("plain", "falsy", "str"))
+    mc.replay_groups(ck, groups, ("plain", "falsy", "str"), light=(tier != "quick"))
     mc.binding_selftest(ck, groups)
     ck.nontrivial = sum(1 for g in groups if mc.nontrivial(*g))
     ck.rule = ("outer timelines (<= 3-4 inner arrivals, ending in completion, error or nothing) x tables of inner timelines (shape "
